@@ -458,3 +458,60 @@ GROUPS.append(Group('X5', '_split (split/rsplit) with an explicit separator: pie
                     'their true offsets', ['C10', 'C11'], 'U', ['AnsiString._split'], split_items, split_task,
                     bounds='results of at most 3 pieces (bounded); text length, separator, maxsplit and table unbounded; '
                     'str.split/find under assumed contracts', assumes=['G2', 'SL']))
+
+
+# ============================================================================================= H1: format_matching / unformat_matching
+CL_FM = [Clause('same-state-as-apply_formatting-over-re-matches', 'post_format_matching'), Clause('text-unchanged', 'post_text_unchanged')]
+CL_UM = [Clause('same-state-as-remove_formatting-over-re-matches', 'post_unformat_matching'), Clause('text-unchanged', 'post_text_unchanged')]
+CL_AM = [Clause('one-apply_formatting-over-the-match-group', 'post_apply_for_match'), Clause('text-unchanged', 'post_text_unchanged')]
+
+
+def h1_items(tier):
+    out = []
+    for fn in ('format_matching', 'unformat_matching'):
+        for nf in (0, 1, 2):
+            out.append([fn, nf])
+        if fn == 'unformat_matching':
+            out.append([fn, 'none'])
+    out.append(['apply_formatting_for_match', 1])
+    return out
+
+
+def h1_task(envr, item):
+    fn, nf = item
+
+    def body(c):
+        from pyvc.argkinds import mk_arg
+        s, info = abs_string(c, 'a')
+        if fn == 'apply_formatting_for_match':
+            m = PObj('__match__', {'_start': c.named_int('ms', 0), '_end': c.named_int('me', 0)})
+            run_contract(envr, c, 'AnsiString.' + fn, s, [mk_arg(c, 'settings', 'f0'), m, 0], {}, CL_AM)
+            return
+        spec = sym.s_opaque(c.opaque_text('Spec'))
+        fmts = [None] if nf == 'none' else [mk_arg(c, 'settings', 'f%d' % i) for i in range(nf)]
+        kw = {'regex': c.named_bool('regex'), 'match_case': c.named_bool('match_case'), 'count': c.named_int('count')}
+        run_contract(envr, c, 'AnsiString.' + fn, s, [spec] + fmts, kw, CL_FM if fn == 'format_matching' else CL_UM)
+
+    def pool(envr):
+        import itertools
+        from pyvc.argkinds import native_receivers
+        A = envr.program.modules['ansi_format'].native.AnsiSetting
+        if fn == 'apply_formatting_for_match':
+            return
+        for base in native_receivers(envr):
+            for spec in ('a', 'b', 'ab', 'A', ' ', 'X', '.', 'a*', 'B'):
+                for regex in (False, True):
+                    for mc in (False, True):
+                        for cnt in (-1, 0, 1, 2):
+                            fm = [None] if nf == 'none' else [[A('4%d' % i)] for i in range(nf if isinstance(nf, int) else 0)]
+                            yield ('AnsiString.' + fn, base, [spec] + fm, {'regex': regex, 'match_case': mc, 'count': cnt}, {})
+    cl = CL_AM if fn == 'apply_formatting_for_match' else (CL_FM if fn == 'format_matching' else CL_UM)
+    return ContractRun(body, cl, use=('ABS',), pool=pool)
+
+
+GROUPS.append(Group('H1', 'format_matching / unformat_matching leave the state of apply / remove_formatting over the first count matches '
+                    'Python re finds (pattern escaped unless regex, case-insensitive unless match_case)', ['C16'], 'U',
+                    ['AnsiString.format_matching', 'AnsiString.unformat_matching', 'AnsiString.apply_formatting_for_match'],
+                    h1_items, h1_task, bounds='re.finditer results of at most 3 matches (bounded); text, pattern, settings, count, flags '
+                    'and table unbounded; re.finditer / re.escape uninterpreted functions of all their arguments',
+                    assumes=['F3', 'M2', 'SL', 'V5']))
